@@ -43,6 +43,31 @@ try:
                     print("WITNESS-FAIL %s/%s: extra output %r" % (name, mode, lines_after))
                 if code != 0 and lines_after.count("\n") != 1:
                     print("WITNESS-FAIL %s/%s: want exactly one diagnostic line, got %r" % (name, mode, lines_after))
+    # a directory given as the script file cannot be read: exit 2
+    d = os.path.join(tmp, "dir.ank")
+    os.mkdir(d)
+    p = subprocess.run([binp, d], stdout=subprocess.PIPE, stderr=subprocess.PIPE, text=True, timeout=60)
+    n += 1
+    if p.returncode != 2:
+        print("WITNESS-FAIL directory-as-file: exit %d, want 2" % p.returncode)
+    if p.stdout.count("\n") != 1:
+        print("WITNESS-FAIL directory-as-file: want exactly one diagnostic line, got %r" % p.stdout)
+    # a script with one very long line (100 KiB comment, 100 KiB string literal) is read whole
+    for name, src, code, want in (
+        ("long-comment-line", 'println("start")\n// ' + "x" * 100000 + '\nprintln("end")\nundefined_name', 4, "start\nend\n"),
+        ("long-string-line", 'println("start")\ns = "' + "y" * 100000 + '"\nprintln(len(s))', 0, "start\n100000\n"),
+        ("crlf-lines", 'println("a")\r\nprintln("b")\r\n', 0, "a\nb\n"),
+        ("no-final-newline", 'println("a")\nprintln("b")', 0, "a\nb\n"),
+        ("raw-string-with-crlf", 'println(len(`a\r\nb`))', 0, "4\n"),
+    ):
+        f = os.path.join(tmp, name + ".ank")
+        open(f, "w", newline="").write(src)
+        p = subprocess.run([binp, f], stdout=subprocess.PIPE, stderr=subprocess.PIPE, text=True, timeout=60)
+        n += 1
+        if p.returncode != code:
+            print("WITNESS-FAIL %s: exit %d, want %d" % (name, p.returncode, code))
+        if not p.stdout.startswith(want):
+            print("WITNESS-FAIL %s: stdout %r does not start with %r" % (name, p.stdout[:80], want))
     p = subprocess.run([binp, os.path.join(tmp, "missing.ank")], stdout=subprocess.PIPE, stderr=subprocess.PIPE, text=True, timeout=60)
     n += 1
     if p.returncode != 2:
